@@ -14,11 +14,26 @@ Arguments Err {A} e.
 Definition bind {A B} (r : result A) (f : A -> result B) : result B :=
   match r with Ok a => f a | Err e => Err e end.
 
+(* state + exception monad: an exception keeps the state reached when it was raised
+   (Python mutations made before a raise persist) *)
+Inductive sres (S A : Type) := SOk (s : S) (a : A) | SErr (s : S) (e : err).
+Arguments SOk {S A} s a.
+Arguments SErr {S A} s e.
+Definition sbind {S A B} (r : sres S A) (f : S -> A -> sres S B) : sres S B :=
+  match r with SOk s a => f s a | SErr s e => SErr s e end.
+(* a pure computation that may raise, run in state s *)
+Definition bindr {S A B} (r : result A) (s : S) (f : A -> sres S B) : sres S B :=
+  match r with Ok a => f a | Err e => SErr s e end.
+Definition sstate {S A} (r : sres S A) : S := match r with SOk s _ => s | SErr s _ => s end.
+
 Definition pystr := string.
 Definition pystr_eqb := String.eqb.
 
 Fixpoint foldM {A X} (f : A -> X -> result A) (l : list X) (a : A) : result A :=
   match l with [] => Ok a | x :: l' => bind (f a x) (foldM f l') end.
+
+Fixpoint sfoldM {S A X} (f : S -> A -> X -> sres S A) (l : list X) (s : S) (a : A) : sres S A :=
+  match l with [] => SOk s a | x :: l' => sbind (f s a x) (fun s' a' => sfoldM f l' s' a') end.
 
 (* while c(st): st := body(st)   with explicit fuel; exhaustion is an error value *)
 Fixpoint whileM {A} (fuel : nat) (c : A -> bool) (body : A -> result A) (a : A) : result A :=
